@@ -399,6 +399,26 @@ func (u *Unit) modLocs(st *State, env *SpecEnv, m *Spec) ([]loc, string, error) 
 			}
 			locs, _ := u.locsOf(u.ptrOf(pv))
 			return locs, "", nil
+		case "pointees":
+			// pointees(s): what the pointer-typed elements of the varargs slice s point to
+			// (known when the slice was built from a varargs array on this path)
+			a, err := u.eval(st, env, m.Args[0])
+			if err != nil {
+				return nil, "", err
+			}
+			var locs []loc
+			for _, ev := range a.Elems {
+				pv, err := u.ifacePtr(ev)
+				if err != nil {
+					continue
+				}
+				if _, isSig := derefType(pv.T).(*types.Signature); isSig {
+					continue
+				}
+				pl, _ := u.locsOf(u.ptrOf(pv))
+				locs = append(locs, pl...)
+			}
+			return locs, "", nil
 		case "elems": // elems(s): all elements of slice s
 			a, err := u.eval(st, env, m.Args[0])
 			if err != nil {
@@ -460,6 +480,7 @@ func (u *Unit) applyFrame(st *State, c *FuncContract, env *SpecEnv, args []Val, 
 		u.havocReachableArgs(st, args, pos)
 		u.havocGhostVars(st, pos)
 	}
+	var hvs []hvItem
 	for _, m := range c.Modifies {
 		locs, ghost, err := u.modLocs(st, env, m)
 		if err != nil {
@@ -491,9 +512,46 @@ func (u *Unit) applyFrame(st *State, c *FuncContract, env *SpecEnv, args []Val, 
 			}
 			nv := u.fresh(st, "hv", l.sort)
 			u.writeLoc(st, l, nv)
+			hvs = append(hvs, hvItem{l, nv})
 		}
 	}
 	u.bumpAlloc(st)
+	// type invariants of the havocked leaves: references are allocated, sizes non-negative
+	for _, h := range hvs {
+		u.assumeLeafTyping(st, h.l.leaf, h.nv)
+	}
+}
+
+type hvItem struct {
+	l  loc
+	nv Term
+}
+
+func (u *Unit) assumeLeafTyping(st *State, lf Leaf, t Term) {
+	switch lf.Role {
+	case "slice.b":
+		st.assume(fmt.Sprintf("(and (<= 0 %s) (<= %s %s))", t, t, st.alloc))
+	case "slice.o", "slice.l", "slice.c":
+		st.assume(fmt.Sprintf("(and (<= 0 %s) (<= %s 1099511627776))", t, t))
+	case "iface.t":
+		st.assume(fmt.Sprintf("(<= 0 %s)", t))
+	case "":
+		if lf.T == nil {
+			return
+		}
+		switch ut := lf.T.Underlying().(type) {
+		case *types.Pointer, *types.Map, *types.Chan:
+			st.assume(fmt.Sprintf("(and (<= 0 %s) (<= %s %s) (=> (not (= %s 0)) (= (reftype %s) %d)))", t, t, st.alloc, t, t, u.refTag(lf.T)))
+		case *types.Signature:
+			st.assume(fmt.Sprintf("(<= 0 %s)", t))
+		case *types.Basic:
+			if ut.Info()&types.IsInteger != 0 {
+				if lo, hi, ok := intRange(ut); ok {
+					st.assume(fmt.Sprintf("(and (<= %s %s) (<= %s %s))", lo, t, t, hi))
+				}
+			}
+		}
+	}
 }
 
 // frameCheck: a write to a pre-existing location must be licensed by the
